@@ -546,6 +546,7 @@ package yang
 //@   requires e != nil
 //@   ensures  len(e.Errors) == old(len(e.Errors)) + 1 && e.Errors[len(e.Errors)-1] != nil
 //@   ensures  forall i int :: 0 <= i && i < old(len(e.Errors)) ==> e.Errors[i] == old(e.Errors[i])
+//@   ensures  arr(e.Errors) == old(arr(e.Errors)) || fresh(e.Errors)
 //@   modifies e.Errors, elems(e.Errors)
 //@   safe
 //
@@ -554,6 +555,7 @@ package yang
 //@   ensures  err == nil ==> len(e.Errors) == old(len(e.Errors)) && e.Errors == old(e.Errors)
 //@   ensures  err != nil ==> len(e.Errors) == old(len(e.Errors)) + 1 && e.Errors[len(e.Errors)-1] == err
 //@   ensures  forall i int :: 0 <= i && i < old(len(e.Errors)) ==> e.Errors[i] == old(e.Errors[i])
+//@   ensures  arr(e.Errors) == old(arr(e.Errors)) || fresh(e.Errors)
 //@   modifies e.Errors, elems(e.Errors)
 //@   safe
 //
@@ -621,3 +623,58 @@ package yang
 //@     invariant forall k string :: visited(k) ==> has(e.Dir, k) && fresh(ne.Dir[k]) && ne.Dir[k].Parent == addr(ne) && sameScalars(ne.Dir[k], e.Dir[k])
 //@   loop 2
 //@     modifies contents(ne.Extra)
+//
+//@ func newError props C04
+//@   ensures  result != nil && fresh(result) && len(result.Errors) == 1 && result.Errors[0] != nil && result.Node == n
+//@   modifies nothing
+//@   safe
+//
+// importErrors: e collects errors, never loses any; nothing else is written.
+//@ func (*Entry).importErrors props C04
+//@   requires e != nil && (c != nil ==> built(c)) && (forall x *Entry :: childOK(x) && builtOld(x))
+//@   ensures  len(e.Errors) >= old(len(e.Errors))
+//@   ensures  arr(e.Errors) == old(arr(e.Errors)) || fresh(e.Errors)
+//@   modifies e.Errors, elems(e.Errors)
+//@   decreases c == nil ? 0 : height(c) + 1
+//@   safe
+//@   loop 1
+//@     modifies e.Errors, elems(e.Errors)
+//@     invariant len(e.Errors) >= old(len(e.Errors))
+//@     invariant arr(e.Errors) == loopentry(arr(e.Errors)) || loopfresh(e.Errors)
+//@   loop 2
+//@     modifies e.Errors, elems(e.Errors)
+//@     invariant len(e.Errors) >= old(len(e.Errors))
+//@     invariant arr(e.Errors) == loopentry(arr(e.Errors)) || loopfresh(e.Errors)
+//
+// merge grafts a fresh copy of every child of oe under e: an existing child is
+// never overwritten (the collision is reported on e), a grafted child is
+// fresh, points back at e, keeps its name and carries the given namespace and
+// prefix; oe's own tree -- slice backing arrays included -- is not written.
+//@ func (*Entry).merge props C04 C06 C07 C12
+//@   requires e != nil && oe != nil && e.Dir != nil && built(oe) && !built(e)
+//@   requires forall x *Entry :: childOK(x) && builtOld(x) && (built(x) ==> x.Dir != e.Dir)
+//@   ensures  forall k string :: old(e.Dir[k]) != nil ==> e.Dir[k] == old(e.Dir[k])
+//@   ensures  forall k string :: !old(has(oe.Dir, k)) ==> e.Dir[k] == old(e.Dir[k])
+//@   ensures  forall k string :: old(has(oe.Dir, k)) && old(e.Dir[k]) == nil ==> e.Dir[k] != nil && fresh(e.Dir[k]) && e.Dir[k].Parent == e && e.Dir[k].Name == old(oe.Dir[k].Name) && e.Dir[k].Kind == old(oe.Dir[k].Kind)
+//@   ensures  forall k string :: old(has(oe.Dir, k)) && old(e.Dir[k]) == nil && namespace != nil ==> e.Dir[k].namespace == namespace
+//@   ensures  forall k string :: old(has(oe.Dir, k)) && old(e.Dir[k]) == nil && namespace == nil ==> e.Dir[k].namespace == old(oe.Dir[k].namespace)
+//@   ensures  forall k string :: old(has(oe.Dir, k)) && old(e.Dir[k]) == nil && prefix != nil ==> e.Dir[k].Prefix == prefix
+//@   ensures  (exists k string :: old(has(oe.Dir, k)) && old(e.Dir[k]) != nil) ==> len(e.Errors) > old(len(e.Errors))
+//@   ensures  len(e.Errors) >= old(len(e.Errors)) && e.Dir == old(e.Dir)
+//@   modifies contents(e.Dir), e.Errors, elems(e.Errors)
+//@   safe
+//@   loop 1
+//@     modifies contents(e.Dir), e.Errors, elems(e.Errors)
+//@     invariant e.Dir == old(e.Dir) && oe.Dir == old(oe.Dir) && len(e.Errors) >= old(len(e.Errors))
+//@     invariant arr(e.Errors) == loopentry(arr(e.Errors)) || loopfresh(e.Errors)
+//@     invariant forall k string :: visited(k) ==> old(has(oe.Dir, k))
+//@     invariant forall k string :: has(oe.Dir, k) == old(has(oe.Dir, k)) && oe.Dir[k] == old(oe.Dir[k])
+//@     invariant forall k string :: !visited(k) ==> e.Dir[k] == old(e.Dir[k])
+//@     invariant forall k string :: old(e.Dir[k]) != nil ==> e.Dir[k] == old(e.Dir[k])
+//@     invariant forall k string :: visited(k) && old(e.Dir[k]) == nil ==> e.Dir[k] != nil && fresh(e.Dir[k]) && e.Dir[k].Parent == e && e.Dir[k].Name == old(oe.Dir[k].Name) && e.Dir[k].Kind == old(oe.Dir[k].Kind)
+//@     invariant forall k string :: visited(k) && old(e.Dir[k]) == nil && namespace != nil ==> e.Dir[k].namespace == namespace
+//@     invariant forall k string :: visited(k) && old(e.Dir[k]) == nil && namespace == nil ==> e.Dir[k].namespace == old(oe.Dir[k].namespace)
+//@     invariant forall k string :: visited(k) && old(e.Dir[k]) == nil && prefix != nil ==> e.Dir[k].Prefix == prefix
+//@     invariant (exists k string :: visited(k) && old(e.Dir[k]) != nil) ==> len(e.Errors) > old(len(e.Errors))
+//@   loop 2
+//@     modifies contents(v.Extra)
